@@ -1,7 +1,7 @@
 (* C07 — Finalizer ordering safety in controller-driven lifecycles. Statements only.
    Machine: GenCtl.q_step (qtransform.QController.Reconcile as a sequence of runtime-API calls, each executed
    atomically by Access.a_apply; any store operation of any other party between any two calls). *)
-From Verif Require Import Store Helpers DepDB Access GenCtl GenCtlProofs Cleanup CleanupProofs.
+From Verif Require Import Store Helpers DepDB Access GenCtl GenCtlProofs Cleanup CleanupProofs Transform TransformProofs.
 Open Scope N_scope.
 
 (* for every schedule of worker calls, transform faults, restarts and environment operations that respect
@@ -73,3 +73,27 @@ Theorem C07_cleanup_release_touches_only_input : forall ns tin cname touts, ~ In
   st_list ns t st' = st_list ns t st.
 Proof. exact c_release_touches_only_input. Qed.
 Print Assumptions C07_cleanup_release_touches_only_input.
+
+(* the same clauses for transform.Controller (rruntime flavour, input finalizers enabled): the whole reconcile cycle
+   (processInputs / reconcileTearingDownInput / cleanupOutputs) as a machine, any environment within env_ok *)
+Theorem C07_transform_finalizer_brackets_output : forall ns tin tout cname tf, tin <> tout -> forall x l,
+  t_env_respects ns tin tout cname tf x (mkTS [] T0) l ->
+  let st := ts_store (t_run ns tin tout cname tf x (mkTS [] T0) l) in
+  forall o, st_get (kout ns tout x) st = Some o -> r_owner o = cname ->
+  exists inp, st_get (kin ns tin x) st = Some inp /\ has_fin cname inp = true.
+Proof. exact t_finalizer_brackets_output. Qed.
+Print Assumptions C07_transform_finalizer_brackets_output.
+
+Theorem C07_transform_destroy_only_torn_down : forall ns tin tout cname tf now fault x s st',
+  TInv ns tin tout cname x s ->
+  t_request ns tin tout cname tf x (ts_pc s) fault = Some (ADestroy (kout ns tout x) None) ->
+  a_apply now (tctrl ns tin tout cname) (ADestroy (kout ns tout x) None) (ts_store s) = (st', AOk) ->
+  exists o, st_get (kout ns tout x) (ts_store s) = Some o /\ r_phase o = true /\ r_fins o = [] /\
+            st_get (kout ns tout x) st' = None.
+Proof. exact t_destroy_only_torn_down. Qed.
+Print Assumptions C07_transform_destroy_only_torn_down.
+
+Theorem C07_transform_remfin_only_without_output : forall ns tin tout cname x s e,
+  TInv ns tin tout cname x s -> ts_pc s = TRemFin e -> ~ owned_out ns tout cname x (ts_store s).
+Proof. exact t_remfin_only_without_output. Qed.
+Print Assumptions C07_transform_remfin_only_without_output.
